@@ -206,6 +206,17 @@ func typedPaths(dir string, seed int64, tier string, repM *Report, repU *Report)
 		if eU != nil {
 			continue
 		}
+		if utapsW != nil {
+			utapsCase(utapsW.report, t, ts, false, desc)
+			// the stream cut short, and one token replaced by an end marker / a nil / a string, at a random position
+			if len(ts) > 1 {
+				k := 1 + r.Intn(len(ts)-1)
+				utapsCase(utapsW.report, t, ts[:k], false, desc+fmt.Sprintf(" cut at %d", k))
+				mut := append([]sb.Token{}, ts...)
+				mut[k] = []sb.Token{tokK(sb.KindArrayEnd), tokK(sb.KindNil), tokS("planted"), tokK(sb.KindMapEnd), {Kind: sb.KindLiteral, Value: "12"}, tokK(sb.KindMin)}[r.Intn(6)]
+				utapsCase(utapsW.report, t, mut, false, desc+fmt.Sprintf(" token %d replaced by %s", k, descToken(mut[k])))
+			}
+		}
 		// reference: walk the marshal taps; the scalar leaves appear in the same order with the same paths
 		var leafPaths []sb.Path
 		var uwant []tapRec
@@ -256,6 +267,9 @@ func typedPaths(dir string, seed int64, tier string, repM *Report, repU *Report)
 		if leafIdx >= 0 && len(leafPaths) > 0 {
 			bad := append([]sb.Token{}, ts...)
 			bad[leafIdx] = sb.Token{Kind: sb.KindString, Value: "planted"}
+			if utapsW != nil {
+				utapsCase(utapsW.report, t, bad, false, desc+fmt.Sprintf(" planted at token %d", leafIdx))
+			}
 			var seen []utap
 			tgt := reflect.New(t)
 			eP := guard(func() error {
